@@ -147,7 +147,24 @@ def query_all(ctx, ds, tag, hist):
             continue
         if len(obj) == 0:
             continue
-        for u in ("min", "max", "mean"):
+        # the order of the three queries and what was read from the feature before them are
+        # the client's choice
+        orng = np.random.default_rng([len(f), len(obj), ctx.counters.get("summary_queries", 0)])
+        ctx.count("summary_queries")
+        pre = int(orng.integers(0, 4))
+        if not isinstance(obj, np.ndarray):
+            try:
+                if pre == 1:
+                    obj[int(orng.integers(0, len(obj)))]
+                elif pre == 2:
+                    np.asarray(obj, dtype=np.float32)
+                elif pre == 3:
+                    obj[:max(1, len(obj) // 2)]
+            except Exception:
+                ctx.count("pre_access_refused")
+            ctx.count(f"pre_access_form[{pre}]")
+        for u in orng.permutation(["min", "max", "mean"]):
+            u = str(u)
             if isinstance(obj, np.ndarray):
                 ctx.count("plain_ndarray_feature")
                 continue
